@@ -1349,7 +1349,9 @@ def c11(project, obs, view=None):
     elif text.strip() and text.strip() not in oc.get("text", ""):
         # (the text is looked for without its leading / trailing blanks: KeyError and friends show their argument
         # repr()-escaped, so a line break at its edge reads "\\n" there — the words of the message are what must survive)
-        out.append(F("C11/original-text-lost/" + cls, "caller saw %s(%r) without the original text %r" % (oc["raised"], oc["text"][:200], text)))
+        # (D42 again when the class is no Exception: the fault is lost, what the caller sees is another error of the run —
+        # e.g. the text of a pre_run teardown that raised)
+        out.append(F("C11/original-text-lost/" + (sfx[1:] if sfx else cls), "caller saw %s(%r) without the original text %r" % (oc["raised"], oc["text"][:200], text)))
     pf = obs.get("pending_failure_at")
     if pf is None:
         out.append(F("C11/fault-not-recorded" + sfx, "the backend raised %s but no pending failure was recorded" % cls))
